@@ -269,6 +269,58 @@ theorem reply_iff {q : Packet} {s : Store} {now : Nat} :
     obtain ⟨r, u, h, _⟩ := buildReply_isSome_of_mem ha
     exact ⟨r, u, h⟩
 
+/-! ### the same for every store produced by a history of operations -/
+
+/-- reached from the empty store by operations whose added records have owner names with labels
+shorter than 256 bytes -/
+def ReachableOK (s : Store) : Prop := ∃ ops : List Op, (∀ op ∈ ops, op.OK) ∧ s = Store.empty.run ops
+
+theorem ReachableOK.reachable {s : Store} (h : ReachableOK s) : Reachable s := by
+  obtain ⟨ops, _, rfl⟩ := h; exact ⟨ops, rfl⟩
+
+theorem ReachableOK.inv {s : Store} (h : ReachableOK s) : Inv s := h.reachable.inv
+
+theorem ReachableOK.storeOK {s : Store} (h : ReachableOK s) : StoreOK s := by
+  obtain ⟨ops, hops, rfl⟩ := h; exact StoreOK.empty.run hops
+
+theorem reply_sound_of_reachable {q : Packet} {s : Store} {now : Nat} {r : Packet} {u : Bool}
+    (hR : ReachableOK s) (hQ : ∀ qu ∈ q.questions, NameOK qu.name)
+    (h : buildReply q s now = some (r, u)) :
+    ∀ a ∈ r.answers,
+      (∃ k b, (k, b) ∈ s.entries ∧ (a, Kind.auth) ∈ b) ∧
+      ∃ qu ∈ q.questions, (a.name = qu.name ∨ a.name.isSubdomainOf qu.name = true) ∧
+        a.matchQType qu.qtype = true ∧ a.matchQClass qu.qclass = true :=
+  reply_sound hR.inv hR.storeOK hQ h
+
+theorem reply_complete_of_reachable {q : Packet} {s : Store} {now : Nat} (hR : Reachable s) {a : RR}
+    (ha : s.hasAuth a) {qu : Question} (hqu : qu ∈ q.questions) (hname : a.name = qu.name)
+    (hty : a.matchQType qu.qtype = true) (hcl : a.matchQClass qu.qclass = true) :
+    ∃ r u, buildReply q s now = some (r, u) ∧ a ∈ r.answers :=
+  reply_complete_exact' hR.inv ha hqu hname hty hcl
+
+theorem additional_sound_of_reachable {q : Packet} {s : Store} {now : Nat} {r : Packet} {u : Bool}
+    (hR : ReachableOK s) (hT : ∀ a ∈ r.answers, ∀ t, srvTarget a.rdata = some t → NameOK t)
+    (h : buildReply q s now = some (r, u)) :
+    ∀ x ∈ r.additional,
+      (∃ k b, (k, b) ∈ s.entries ∧ (x, Kind.auth) ∈ b) ∧
+      (x.rdata.typeOf = .A ∨ x.rdata.typeOf = .AAAA) ∧
+      ∃ srv ∈ r.answers, ∃ t, srvTarget srv.rdata = some t ∧ x.name = t :=
+  additional_sound hR.inv hR.storeOK hT h
+
+theorem no_empty_reply_of_reachable {q : Packet} {s : Store} {now : Nat} (hR : ReachableOK s)
+    (hQ : ∀ qu ∈ q.questions, NameOK qu.name)
+    (h : ∀ qu ∈ q.questions, ∀ k b a kind, (k, b) ∈ s.entries → (a, kind) ∈ b →
+      ¬ (kind = .auth ∧ a.matchQType qu.qtype = true ∧ a.matchQClass qu.qclass = true ∧
+          (a.name = qu.name ∨ a.name.isSubdomainOf qu.name = true))) :
+    buildReply q s now = none :=
+  no_empty_reply hR.inv hR.storeOK hQ h
+
+theorem cached_not_in_reply_of_reachable {q : Packet} {s : Store} {now : Nat} {r : Packet} {u : Bool}
+    (hR : Reachable s) (h : buildReply q s now = some (r, u)) {k : Key} {b : Bucket} {c : RR} {e : Nat}
+    (hk : (k, b) ∈ s.entries) (hc : (c, Kind.cached e) ∈ b) :
+    ∀ a ∈ r.answers, rrEq a c = false :=
+  cached_not_in_reply hR.inv h hk hc
+
 /-! ### a concrete store: the hypotheses are satisfiable, the conclusions are what one expects -/
 
 namespace C13Ex
@@ -326,6 +378,13 @@ node at the key of `local` (no record is registered under `local` itself and the
 not branch exactly there: `1 a` and `1 x` share the length byte and a nibble). -/
 example : st.nodeExists (getKey nLocal) = false := by decide
 example : buildReply (query nLocal .ANY false) st 5 = none := by decide
+
+/-- "Registered record" is meant up to the crate's record equality: `HashMap::insert` keeps the
+stored key, so a record first learned from the network (TTL 2) and then registered locally (TTL 120)
+is answered authoritatively with the TTL of the copy received first. -/
+example : buildReply (query nA .ANY false)
+    (Store.empty.run [.addCached { recA with ttl := 2 } 0, .addAuth recA]) 999999 =
+    some (reply [{ recA with ttl := 2 }] [], false) := by decide
 
 /-- `NameOK` cannot be dropped from `key_inj` / `key_prefix_iff`: a label of 256 bytes (only
 constructible through `Name::new_unchecked`) has length byte 0 (`label.len() as u8`), so the key of
